@@ -37,6 +37,8 @@ Fading(e) ==
            "supplied_csi_and_noise_give_exactly_h_x_plus_n")
     /\ Chk(e.blocks = <<>> \/ \A i, j \in 1..Len(e.blocks) : (((i - 1) \div e.T) = ((j - 1) \div e.T)) => e.blocks[i] = e.blocks[j], "gain_constant_within_coherence_block")
     /\ Chk(e.blocks = <<>> \/ e.distinct_required = 0 \/ Cardinality({ e.blocks[i] : i \in 1..Len(e.blocks) }) >= e.distinct_required, "gain_redrawn_across_blocks")
+    /\ Chk(e.corr_band_ppm = 0 \/ Abs(e.corr_ppm) <= e.corr_band_ppm, "gains_of_different_blocks_are_independent_draws")
+    /\ Chk(e.corr_band_ppm = 0 \/ Abs(e.icorr_ppm) <= e.corr_band_ppm, "gains_of_different_batch_items_are_independent_draws")
     /\ Chk(e.gain_ppm < 0 \/ Abs(e.gain_ppm - 1000000) <= e.gain_band_ppm, "unit_mean_square_gain")
     /\ Chk(e.k10 < 0 \/ Abs(e.los_ppm * (10 + e.k10) - 1000000 * e.k10) <= e.gain_band_ppm * (10 + e.k10), "rician_line_of_sight_share_is_K_over_K_plus_1")
 
